@@ -975,9 +975,17 @@ class RTDCWriter:
                 **self.compression_kwargs)
             line_offset = 0
         else:
-            # TODO: test whether fixed length is long enough!
-            # Resize the dataset
             txt_dset = group[name]
+            if (txt_dset.dtype.kind == "S"
+                    and txt_dset.dtype.itemsize < max_length):
+                # The new lines do not fit into the fixed-length strings
+                # of the existing dataset (they would be truncated).
+                # Rewrite the dataset with the required string length.
+                old_lines = [ll for ll in txt_dset[:]]
+                del group[name]
+                return self.write_text(group, name,
+                                       old_lines + lines_as_bytes)
+            # Resize the dataset
             line_offset = txt_dset.shape[0]
             txt_dset.resize(line_offset + lnum, axis=0)
 
